@@ -22,10 +22,11 @@ const (
 	c10UnknownTag
 	c10SrvClose
 	c10Stall
+	c10StallCut // the peer stops reading (the client's writer blocks), then only the server-to-client stream ends
 	c10NFaults
 )
 
-var c10FaultNames = []string{"none", "cut-eof", "cut-reset", "write-err", "local-close", "garbage", "unknown-tag", "peer-close", "stall-then-close"}
+var c10FaultNames = []string{"none", "cut-eof", "cut-reset", "write-err", "local-close", "garbage", "unknown-tag", "peer-close", "stall-then-close", "stall-then-cut"}
 
 func init() { register(&Property{ID: "C10", Gen: c10Gen, Exec: c10Exec}) }
 
@@ -85,6 +86,9 @@ func c10Gen(seed uint64, run int, tier string) *Case {
 	default:
 		c.Stratum = "random"
 		c.Cfg["fault"] = int64(1 + r.Intn(c10NFaults-1))
+		if c.Cfg["fault"] == c10StallCut {
+			c.Cfg["cap"] = int64(r.Pick(16, 16, 200)) // the writer must be able to block
+		}
 	}
 	c.Cfg["early"] = int64(r.Pick(0, 0, 0, 1))
 	if c.Cfg["early"] == 1 {
@@ -123,6 +127,7 @@ type c10State struct {
 	clnt   *go9p.Clnt
 	calls  []*c10Call
 	keyOcc map[string]int
+	tagOrder bool // judge the completion order of pipelined Tag requests (C09)
 	gs     []*rt.G
 }
 
@@ -232,10 +237,51 @@ func (st *c10State) runCallerOps(ci int, ops []Op, late bool) {
 				bad = fmt.Sprintf("write of %d bytes returned %d", cnt, n)
 			}
 			cl.end(err, bad)
+		case "helper":
+			// the client's path helpers, also with names that do not exist (C09 only: several requests per call)
+			cl := st.begin(ci, i, "helper", fmt.Sprintf("helper/%d/%d", ci, i), late)
+			var err error
+			wantErr := false
+			switch op.a(0) % 6 {
+			case 0:
+				_, err = clnt.FStat("a/bb")
+			case 1:
+				_, err = clnt.FStat("nope")
+				wantErr = true
+			case 2:
+				_, err = clnt.FStat("a/short/ccc")
+				wantErr = true
+			case 3:
+				var f *go9p.File
+				if f, err = clnt.FOpen("a", go9p.OREAD); err == nil {
+					err = f.Close()
+				}
+			case 4:
+				_, err = clnt.FOpen("a/nope", go9p.OREAD)
+				wantErr = true
+			case 5:
+				_, err = clnt.FWalk("a/bb/short")
+				wantErr = true
+			}
+			switch {
+			case wantErr && err == nil:
+				cl.end(nil, "a path helper succeeded for a name the server refused")
+			case wantErr:
+				cl.end(nil, "")
+				cl.ExpectedErr = true
+			default:
+				cl.end(err, "")
+			}
 		case "tagreads":
 			// pipelined Tag interface: n reads under one shared tag
 			n, cnt := int(op.a(1)), uint32(op.a(2))
-			ch := make(chan *go9p.Req, n)
+			chcap := n
+			if len(op.A) > 3 {
+				// a consumer that takes completions one at a time, or with room for one only
+				chcap = []int{n, 0, 1}[op.a(3)%3]
+			}
+			ch := make(chan *go9p.Req, chcap)
+			nextDone := 0
 			tag := clnt.TagAlloc(ch)
 			var cls []*c10Call
 			pending := 0
@@ -263,6 +309,14 @@ func (st *c10State) runCallerOps(ci int, ops []Op, late bool) {
 				if cl == nil {
 					st.x.Violate("k2-content", "Tag interface completed a request nobody issued")
 					continue
+				}
+				if st.tagOrder && r.Err == nil {
+					// requests sharing a tag are completed in the order issued
+					for ; nextDone < len(cls) && cls[nextDone].Returned; nextDone++ {
+					}
+					if nextDone < len(cls) && cls[nextDone] != cl {
+						st.x.Violate("c4-tag-order", "pipelined reads sharing a tag were issued in the order of their offsets, but the read at %d completed before the one at %s (consumer channel capacity %d)", r.Tc.Offset, cls[nextDone].Key, chcap)
+					}
 				}
 				err, bad := r.Err, ""
 				if err == nil && r.Rc == nil {
@@ -441,7 +495,7 @@ func c10Exec(x *Ctx) {
 				x.Fault("peer-close")
 				cs.Close()
 			})
-		case c10Stall:
+		case c10Stall, c10StallCut:
 			rt.Go(rt.SiteSpawn, func() {
 				rt.SetName("staller")
 				rt.YieldUntil(rt.SiteActor, func() bool { return x.S.Steps >= base+fparam })
@@ -471,6 +525,12 @@ func c10Exec(x *Ctx) {
 	holdpct = 0
 	for _, r := range peer.Reqs {
 		r.Hold = false
+	}
+	if fault == c10StallCut {
+		// the peer keeps not reading: the client's writer may stay blocked for ever; its callers may not
+		fired = true
+		x.Fault("cut-eof")
+		cc.In.CutAt = cc.In.Consumed
 	}
 	if fault == c10Stall {
 		fired = true
